@@ -22,7 +22,7 @@ import (
 )
 
 type Op struct {
-	// Kind: arrive | reap | produce | restart
+	// Kind: arrive | reap | produce | produce-exec-fails | restart
 	Kind string   `json:"kind"`
 	Txs  [][]byte `json:"txs,omitempty"`
 }
@@ -59,7 +59,11 @@ func gen(t *rapid.T) Scenario {
 		case k < 7:
 			sc.Ops = append(sc.Ops, Op{Kind: "reap"})
 		case k < 9:
-			sc.Ops = append(sc.Ops, Op{Kind: "produce"})
+			if rapid.IntRange(0, 5).Draw(t, "execfail") == 0 {
+				sc.Ops = append(sc.Ops, Op{Kind: "produce-exec-fails"}, Op{Kind: "restart"})
+			} else {
+				sc.Ops = append(sc.Ops, Op{Kind: "produce"})
+			}
 		default:
 			sc.Ops = append(sc.Ops, Op{Kind: "restart"})
 		}
@@ -179,6 +183,13 @@ func (pl *pipeline) do(o Op) (crashed bool, pan any) {
 			pl.reaper.SubmitTxs()
 		case "produce":
 			_ = pl.p.N.M.VerifPublishBlock(pl.p.Ctx)
+		case "produce-exec-fails":
+			// the execution layer fails this once (a transient error); block production gives up, which in a
+			// running node ends the aggregation loop: the node is shut down and started again (the caller
+			// follows this op with a restart)
+			pl.p.Exec.FailNextExec(1)
+			_ = pl.p.N.M.VerifPublishBlock(pl.p.Ctx)
+			pl.p.Exec.FailNextExec(0)
 		}
 	}()
 	if crashed {
